@@ -1565,7 +1565,16 @@ func (p *printer) genDecl(d *ast.GenDecl, isFileScope bool) {
 	p.setComment(d.Doc)
 
 	// 内部省略 var
-	if isFileScope || d.Tok != token.VAR || d.Lparen != token.NoPos {
+	omitVar := !isFileScope && d.Tok == token.VAR && d.Lparen == token.NoPos
+	if omitVar {
+		// `var x = 1` 没有类型, 省略 var 会变成赋值语句
+		for _, spec := range d.Specs {
+			if vs, ok := spec.(*ast.ValueSpec); ok && vs.Type == nil {
+				omitVar = false
+			}
+		}
+	}
+	if !omitVar {
 		tok := d.Tok
 		if isFileScope && d.Tok == token.VAR {
 			tok = token.GLOBAL
